@@ -165,9 +165,78 @@ def _flatten(nested):
     return [nested]
 
 
+def _sympy_hook(s: Sym) -> str:
+    """S5 for to_sympy (which evals the text): the token is a python expression that evaluates to a sympy symbol."""
+    if s.is_const():
+        v = s.const_value()
+        return str(int(v)) if v.denominator == 1 else repr(float(v))
+    toks = ENGINE.path_cache.setdefault("tokens", [])
+    neg = ENGINE.decide(s.z3() < 0, tainted=s.tainted)
+    toks.append(-s if neg else s)
+    return "%s__import__('sympy').Symbol('T%d')" % ("-" if neg else "", len(toks) - 1)
+
+
+def body_sympy(ctx: H.BaseCtx):
+    """to_sympy(p) denotes p (0-d polynomials, default display options)."""
+    import numpoly
+    import sympy
+
+    case = ctx.case
+    spec = case["poly"]
+    old_hook = ENGINE.str_hook
+    if ctx.symbolic:
+        ENGINE.str_hook = _sympy_hook
+    try:
+        p = ctx.build(spec)
+        mp = ctx.model(spec)
+        names = list(spec["names"])
+        try:
+            expr = numpoly.to_sympy(p)
+        except Exception as e:
+            ctx.unexpected_exception(e, "to_sympy")
+            return
+        tokens = ENGINE.path_cache.get("tokens", []) if ctx.symbolic else []
+        qs = [sympy.Symbol(n) for n in names]
+        ts = [sympy.Symbol("T%d" % i) for i in range(len(tokens))]
+        try:
+            poly = sympy.Poly(sympy.sympify(expr), *qs)
+        except Exception as e:
+            ctx.fail("format", "to_sympy result is not a polynomial in %s: %s" % (names, str(e)[:80]))
+            return
+        got = M.MP()
+        for mono, coef in poly.terms():
+            # coefficient: a polynomial in the token symbols with rational coefficients
+            if ts:
+                cp = sympy.Poly(coef, *ts)
+                val = Sym.const(0)
+                for tm, c in cp.terms():
+                    term = Sym.const(Fraction(int(sympy.numer(c)), int(sympy.denom(c))) if c.is_Rational else Fraction(float(c)))
+                    for tok, k in zip(tokens, tm):
+                        for _ in range(int(k)):
+                            term = term * tok
+                    val = val + term
+            else:
+                val = Sym.const(Fraction(int(sympy.numer(coef)), int(sympy.denom(coef))) if coef.is_Rational else Fraction(float(coef)))
+            key = tuple(sorted(((n, int(k)) for n, k in zip(names, mono) if k), key=lambda t: M._name_key(t[0])))
+            got = got + M.MP({key: val})
+        ctx.expect_model(M.mp_array([got], ()), mp, "to_sympy(p)")
+        if not ctx.symbolic:
+            # concrete runs only: the documented round trip through numpoly.polynomial
+            try:
+                back = numpoly.polynomial(expr)
+                ctx.expect_model(back, mp, "polynomial(to_sympy(p))")
+            except Exception as e:
+                if any(bool(c != 0) for e_ in M.flat_items(mp) for m_, c in e_.terms.items() if m_ != ()):
+                    ctx.unexpected_exception(e, "polynomial(to_sympy(p))")
+    finally:
+        ENGINE.str_hook = old_hook
+
+
 def body(ctx: H.BaseCtx):
     import numpoly
 
+    if ctx.case.get("op") == "sympy":
+        return body_sympy(ctx)
     case = ctx.case
     spec = case["poly"]
     old_hook = ENGINE.str_hook
@@ -255,6 +324,13 @@ def gen_cases(tier: str, seed: int) -> List[Dict]:
                 opt.update(rng.choice(signs))
                 n += 1
                 cases.append({"id": "%s-%03d-text" % (PROP, n), "op": "text", "poly": spec, "options": opt, "limits": lim})
+    # to_sympy on single (0-d) polynomials, default display options
+    for names, exps in monosets:
+        for _ in range(2 if quick else 10):
+            sub = [e for e in exps if rng.random() < 0.8] or exps[:1]
+            spec = S.make_poly_spec("a", names, sub, (), rng, 3, zero_prob=0.1, literal_prob=0.3, mode=rng.choice(["raw", "clean"]))
+            n += 1
+            cases.append({"id": "%s-%03d-sympy" % (PROP, n), "op": "sympy", "poly": spec, "options": {}, "limits": lim})
     return cases
 
 
@@ -263,7 +339,8 @@ def main(argv=None) -> int:
         PROP, MOD, gen_cases,
         rule="one case = (polynomial structure, display option setting); non-trivial = >= 2 feasible paths (sign / +-1 / zero forks)",
         bounds={"terms": "<= 5 over <= 3 indeterminates (names up to q12)", "shapes": "() .. (2,2) quick / 3-d thorough", "display_settings": "8 boolean x 4 exponent/multiply sign variants",
-                "outside": "float/complex/bool coefficient formatting (python's formatting of concrete numbers), suppress_small, to_sympy (evals the text with sympy symbols)"},
+                "to_sympy": "0-d polynomials under default display options: the sympy expression must denote p (tokens evaluate to sympy symbols); the round trip polynomial(to_sympy(p)) only in native runs",
+                "outside": "float/complex/bool coefficient formatting (python's formatting of concrete numbers), suppress_small"},
         functions=["numpoly.array_repr", "numpoly.array_str", "ndpoly.__str__/__repr__", "array_repr.to_string/_to_string", "numpoly.glexsort"],
         assumptions=["S5: str(Sym) = '-'+token(-x) if x < 0 else token(x); float(Sym) usable in sign tests only; number formatting trusted"],
         argv=argv,
